@@ -783,7 +783,7 @@ def _run_atheris(ctx, runs):
 
 
 def run(ctx):
-    ctx.search("history", histories(), quick=2500, thorough=12000)
+    ctx.search("history", histories(), quick=2500, thorough=20000)
     ctx.search("codec", id_batches(), quick=150, thorough=500)   # >=16 ids per batch: >=1.2e5 ids in 16 shards
     ctx.enumerate("codec", boundary_id_batches(), name="codec-one-byte-boundaries")
     if not ctx.quick() and ctx.shard == 0:
